@@ -231,6 +231,9 @@ def decide(pid, tier, seed):
     for name in cfg.get('e3_always', []):
         # bounded stand-in for a function that is outside the verifiers' reach: labelled bounded, never counted as proved
         rp = replay.search(pid, {'fn': name}, seed)
+        if rp.get('error'):
+            undecided.append('bounded stand-in e3/%s did not run: %s' % (name, rp.get('how', '')[-400:]))
+            continue
         bounded.append({'name': 'e3/' + name, 'bound': rp.get('how', 'enumerator (see replay/src/searches.rs)') if not rp.get('found') else 'enumerator', 'status': 'failed' if rp.get('found') else 'held'})
         if rp.get('found'):
             real_violations.append({'obligation': 'e3/%s' % name, 'kind': 'bounded-stand-in', 'fn': name,
